@@ -261,6 +261,8 @@ def run_route(case):
     force = getattr(fast, "_verif_rng_force", None)
     route = case["route"]
     real_eid = cfg0.engine_id
+    if route == "failed-set-keys":
+        return run_failed_set_keys(case)
     report_eid = b"" if case["report_eid"] == "empty" else real_eid
     if route == "raw-empty-eid":
         cfg = EmptyEidCfg.from_desc(case["cfg"])
@@ -307,6 +309,49 @@ def run_route(case):
                 if classify_out(out, "get") != "skipped":
                     break
             return classify_out(out, "get"), out
+        q = rb.parse_message(data, strict=False)
+        if q.request_id is not None:
+            rid = q.request_id
+        elif not force:
+            return "no-seam", None
+        forged = forged_with_key(cfg, q.msg_id, rid, q.engine_id, q.boots, q.time, guess_key(cfg, case["key"], q.engine_id), bool(cfg.priv) and case["encrypt"])
+        w.inject(forged)
+        out = w.recv("get")
+        return classify_out(out, "get"), out
+    finally:
+        w.close()
+
+
+def run_failed_set_keys(case):
+    """A session holding real keys; a key installation that is refused; then a reply made with a guessable key."""
+    mod, fast = drivers.subject()
+    cfg = Cfg.from_desc(case["cfg"])
+    force = getattr(fast, "_verif_rng_force", None)
+    w = drivers.SplitWorld(cfg)
+    try:
+        eid, user, a_alg, a_key, p_alg, p_key = cfg.raw_args()
+        need = refcrypto.KEYLEN[cfg.auth]
+        how = case["how"]
+        if how == "authlen":
+            a_alg, a_key = (cfg.auth | (drivers.KT_LOCALIZED << 6)), bytes(range(1, need))
+        elif how == "privlen":
+            p_alg, p_key = (cfg.priv | (drivers.KT_LOCALIZED << 6)), bytes(range(1, need - 3))
+        elif how == "privempty":
+            p_alg, p_key = cfg.priv, b""
+        else:
+            p_alg = 3
+        o = drivers.call(w.sock.set_keys, user, a_alg, a_key, p_alg, p_key)
+        if o.kind == "ok":
+            return "not-refused", None
+        rid, mid = 0x1234567, 0x2345678
+        if force:
+            force([rid, mid])
+        o = w.send("get", rb.oid_str(SYS))
+        if force:
+            force([])
+        data = w.take_request()
+        if o.kind != "ok" or data is None:
+            return "not-sent", None
         q = rb.parse_message(data, strict=False)
         if q.request_id is not None:
             rid = q.request_id
@@ -408,6 +453,12 @@ def gen_routes(tier):
                     for encrypt in (True, False) if priv else (False,):
                         yield {"kind": "route", "cfg": cfg.describe(), "route": route, "report_eid": report_eid, "key": key, "encrypt": encrypt}
             yield {"kind": "route", "cfg": cfg.describe(), "route": "in-flight", "report_eid": "real", "key": "none", "encrypt": False}
+            for how in ("authlen", "privlen", "privempty", "privalg"):
+                if not priv and how != "authlen":
+                    continue
+                for key in GUESS_KEYS[:2]:
+                    for encrypt in (True, False) if priv else (False,):
+                        yield {"kind": "route", "cfg": cfg.describe(), "route": "failed-set-keys", "report_eid": "real", "key": key, "encrypt": encrypt, "how": how}
     for driver in ("sync", "async"):
         for auth, priv in ((1, 0), (2, 0), (2, 2)):
             cfg = Cfg("v3", auth=auth, priv=priv, discover=True)
@@ -462,7 +513,7 @@ def run(tier):
     rec = common.Recorder(PROPERTY, tier, LEVEL, MODULE)
     rec.rule = (
         "otherwise-matching reply x MAC in {valid, zero, random, wrong key, absent, short, long, each of the 96 single-bit flips, octet pairs / triples whose differences cancel under XOR or sum} x auth flag x priv flag (ciphertext / plaintext) x "
-        "{GetResponse, Report} x {MD5,SHA1} x {none,DES,AES} x pending operation, each followed by the genuine reply; after engine-id discovery by 4 routes (socket created without engine id / set_keys after discovery x Report carrying the real or an EMPTY engine id; keys installed while a request sent under the anonymous user is in flight, then a reply with msgFlags 0) "
+        "{GetResponse, Report} x {MD5,SHA1} x {none,DES,AES} x pending operation, each followed by the genuine reply; after engine-id discovery by 4 routes (socket created without engine id / set_keys after discovery x Report carrying the real or an EMPTY engine id; keys installed while a request sent under the anonymous user is in flight, then a reply with msgFlags 0; a refused set_keys on a session holding keys, then a reply under a guessable key) "
         "a reply authenticated (and encrypted) under each key anybody can compute {all-zero, zero master localized to the engine id / to the empty id, user name}; public clients with the first discovery datagram lost, "
         "refresh retried, then a reply with msgFlags 0. Non-trivial: every case (all are distinct forgeries)."
     )
